@@ -10,6 +10,7 @@ import random
 import sys
 import time
 import traceback
+import zlib
 from fractions import Fraction
 
 import numpy as np
@@ -21,6 +22,9 @@ from .engine import Ctx, Smt, Infeasible, Inconclusive, SkipPoint, HarnessError
 
 VERIF = os.path.dirname(os.path.dirname(os.path.abspath(__file__)))
 REPLAY_DIR = os.path.join(VERIF, 'replays')
+
+
+DEFINEDNESS_DEFAULT = os.environ.get('SYMX_DEFINEDNESS', '1') == '1'
 
 
 class Unit(object):
@@ -407,6 +411,57 @@ def decide_path(unit, ctx, res, rng, tier):
                                        '(stub/atom freedom or rounding-level)' % (unit.name, it[0]))
 
 
+def check_definedness(unit, ctx, res, rng):
+    """every division performed by a line of the implementation on this path has a divisor
+    that cannot vanish where the specification is defined (stated assumptions, path
+    condition, and non-vanishing divisors of the oracle / of the numpy.linalg stand-ins).
+    A satisfiable `divisor = 0` is replayed on the float code and reported only if the
+    real code then yields nan/inf (or ZeroDivisionError) where the oracle value is finite."""
+    nf = ctx.nf
+    seen = set()
+    spec = [d for d in ctx.divisors.values() if ctx.divisor_kind.get(d.id) != 'code']
+    for d in list(ctx.divisors.values()):
+        if ctx.divisor_kind.get(d.id) != 'code':
+            continue
+        n, _dd = nf.of(d)
+        if n.op == 'const' or n.id in seen:
+            continue
+        seen.add(n.id)
+        res['definedness_queries'] = res.get('definedness_queries', 0) + 1
+        smt = Smt(nf)
+        base = ctx._base_asserts(smt, divisors=False)
+        for sd in spec:
+            sn, _ = nf.of(sd)
+            if sn.op != 'const':
+                base.append('(not (= %s 0))' % smt.term(sn))
+        ax = atom_axioms(smt)
+        script = smt.script(base + ax + ['(= %s 0)' % smt.term(n)])
+        r, model, dt = E.z3_check(script, min(ctx.timeout_ms, 20000), want_model=True)
+        res['queries'] += 1
+        res['solver_s'] += dt
+        if r == 'unsat':
+            res['definedness_discharged'] = res.get('definedness_discharged', 0) + 1
+            continue
+        if r != 'sat':
+            res['definedness_unknown'] = res.get('definedness_unknown', 0) + 1
+            continue
+        env = _model_assignment(ctx, smt, model, rng)
+        fctx, st = run_float(unit, env)
+        fails = [] if fctx is None else [f for f in fctx.float_failures if _nonfinite_failure(f)]
+        if fails:
+            res['violations'].append(_write_replay(unit, env, fails, 'definedness: a divisor vanishes inside the stated domain'))
+            return
+        res['definedness_benign'] = res.get('definedness_benign', 0) + 1
+
+
+def _nonfinite_failure(f):
+    label, text = f[0], str(f[1])
+    if label == 'exception':
+        return text.startswith(('ZeroDivisionError', 'FloatingPointError'))
+    got = text.split('expected')[0]
+    return 'nan' in got or 'inf' in got
+
+
 def _crosscheck(script, res, unit, what):
     for solver in ('z3old', 'cvc5'):
         t0 = time.time()
@@ -507,7 +562,7 @@ def new_result(unit):
 def run_unit(unit, tier='quick', seed=0):
     t0 = time.time()
     res = new_result(unit)
-    rng = random.Random((hash(unit.name) & 0xffffffff) ^ seed)
+    rng = random.Random(zlib.crc32(unit.name.encode()) ^ seed)
     harness = unit.harness()
     budget = unit.opts.get('path_budget', 64)
     work = [()]
@@ -580,6 +635,8 @@ def run_unit(unit, tier='quick', seed=0):
             S.set_ctx(None)
             nfail = len(res['fact_failures'])
             decide_path(unit, ctx, res, rng, tier)
+            if unit.opts.get('definedness', DEFINEDNESS_DEFAULT) and not res['violations']:
+                check_definedness(unit, ctx, res, rng)
             if len(res['fact_failures']) > nfail and not res['violations']:
                 # a concrete assertion failed on this symbolic path: replay at a point of this path
                 for _ in range(2):
